@@ -773,6 +773,12 @@ def _trailing_blank_sites(tree):
     return out
 
 
+# (function: why the joined list at the end of its line is never empty) - confirmed by reading
+JOINED_NEVER_EMPTY = {
+    "client.BaseClientHandler.do_capability": "the capabilities of the constant table minus the per-client exclusions of CLIENT_RULES (a table in the source, which never lists IMAP4REV1: capability-data must contain it)",
+}
+
+
 def r7_12(ctx):
     """A response line does not end in a blank.  Where the tail of a line is a separator-joined list that may be empty
     (`* SEARCH` with no hits) the separator belongs to each element, not to the text in front of the list."""
@@ -800,6 +806,9 @@ def r7_12(ctx):
                             continue
                 if isinstance(cv, (ast.List, ast.Tuple, ast.Set)) and cv.elts:
                     continue
+            if fi.key in JOINED_NEVER_EMPTY:
+                ctx.ok("R7.12", where(fi), f"joined list never empty: {JOINED_NEVER_EMPTY[fi.key]}", nontrivial=False)
+                continue
             n += 1
             ctx.analysed(fi)
             ctx.bad("R7.12", fi.module, fi.qual, norm(js, 80), "the line ends `SP <joined list> CRLF`: with an empty list the response ends in a blank (`* SEARCH ` CRLF is not `\"SEARCH\" *(SP nz-number)`)", js.lineno)
